@@ -191,6 +191,28 @@ def rule_positional(ctx, R):
                 ctx.check(st.has_call('get_state') and ROLE[kind]['candidate'](meas) and not ROLE[kind]['track'](meas), R, b,
                           kind + ':distance(track state, candidate box)', '%r, %r' % (st.strip(), meas),
                           'the Mahalanobis distance is not taken between the track filter state and the candidate box')
+                # the filter that measures the distance carries the noise weights of THIS track: it is built from the
+                # track attributes' position / velocity weight on every alternative - never a filter kept in the
+                # metric object from an earlier call (whose weights belong to whatever was optimised first)
+                alts_ = []
+                for dc_ in dcall:
+                    flt = dc_.args[0]
+                    alts_ += flt.args if flt.kind == 'phi' else [flt]
+                okf = True
+                for a_ in alts_:
+                    news = [y for y in a_.walk() if y.kind == 'call' and y.name == BOXF + '::new']
+                    okf = okf and len(news) == 1 and len(news[0].args) == 2 and \
+                        news[0].args[0].has_call('get_position_weight') and news[0].args[1].has_call('get_velocity_weight') and \
+                        not any(p_.root == ('param', 1) and p_.fields and p_.fields[0] != 'opts' for p_ in a_.places()
+                                if not any(p_ in z.places() for z in news))
+                n += 1
+                flt = [a_ for a_ in alts_ if not any(y.kind == 'call' and y.name == BOXF + '::new' for y in a_.walk())] or alts_
+                flt = flt[0]
+                ctx.check(okf, R, b, kind + ':filter-built-from-the-track-weights', repr(flt)[:100],
+                          'the filter that computes the Mahalanobis distance is %r: expected, on every path, '
+                          'Universal2DBoxKalmanFilter::new(track position weight, track velocity weight) built for this '
+                          'pair (a filter stored in the metric carries the weights of another track)' % flt, dcall[0].extra.ln
+                          if hasattr(dcall[0].extra, 'ln') else '')
         # ---- IoU: map(|e| e * conf).filter(|e| *e >= threshold) on calculate_metric_object(candidate, track)
         cmo = b.find_calls('calculate_metric_object')
         for c in cmo:
